@@ -28,6 +28,7 @@ ORACLES = [
     (r'oracle :: impl (From<Timestamp> for Date|Date / fn (try_from_usecs|is_valid_date|new))', ['od_from_timestamp']),
     (r'oracle :: impl Date / fn add_days|kani::od_add_days', ['od_add_days']),
     (r'timestamp :: impl Timestamp / fn add_days|kani::ts_add_days', ['ts_add_days']),
+    (r'impl TryFrom<&?NaiveDateTime> for (IntervalDT|Time|Timestamp) / fn try_from', ['naive_carry']),
 ]
 
 
